@@ -111,7 +111,7 @@ def mutants(only=None, catalogue=None):
         scratch = tempfile.mkdtemp(prefix='acetime-mut-')
         try:
             shutil.copytree(os.path.join(B.REPO, 'src'), os.path.join(scratch, 'src'))
-            if m['file'].startswith('tools/') or 'C20' in m.get('breaks', []) + m.get('quiet', []):
+            if True:   # C08 (pysim) and C20 need tools/ whatever the mutant touches
                 shutil.copytree(os.path.join(B.REPO, 'tools'), os.path.join(scratch, 'tools'),
                                 ignore=shutil.ignore_patterns('__pycache__', 'archive', 'compare_*', 'validation'))
             try:
